@@ -1,129 +1,162 @@
-import PV.C20.Lemmas.ConvPhase
-/-! C20 helper lemmas — field-name phase in lockstep, and the field lemma `field_eq`. -/
+import PV.C20.Model
+import PV.C20.Lemmas.SpecDriver
+/-! C20 helper lemmas — the field lemma: the (repaired, one-pass) Rust field scanner accepts exactly
+    what CPython's `parse_field` accepts, with the same field and the same rest. -/
 namespace PV.C20
 open Model
 
-theorem mapName_dom (c : Nat) (x : Option (Field × List Nat))
-    (h : ∀ f r, x = some (f, r) → domFrom .lit r = true) :
-    ∀ f r, mapName c x = some (f, r) → domFrom .lit r = true := by
-  intro f r hx
-  cases x with
-  | none => simp [mapName] at hx
-  | some p =>
-    simp [mapName] at hx
-    have := h p.1 p.2 rfl
-    rw [hx.2] at this; exact this
-
-/-- field-name part: the three scanners in lockstep -/
-theorem name_phase (b : List Nat) : ∀ br : Bool,
-    domFrom (if br then .nameBr else .name) b = true →
-    MF br b = SF br b ∧ ∀ f r, SF br b = some (f, r) → domFrom .lit r = true := by
-  induction b with
-  | nil => intro br _; simp [MF, SF, specC, Spec.scanName]
+theorem nameLoop_eq (t : List Nat) : ∀ br : Bool,
+    accepted (nameLoop br t) = accepted (Spec.scanName br t) := by
+  induction t with
+  | nil => intro br; cases br <;> simp [nameLoop, Spec.scanName]
   | cons c rest ih =>
-    intro br hd
+    intro br
     cases br
-    · -- outside brackets
-      simp only [Bool.false_eq_true, ↓reduceIte, domFrom] at hd
+    · simp only [nameLoop, Spec.scanName]
       by_cases h1 : c = 123
-      · simp [h1] at hd
-      by_cases h2 : c = 91
-      · subst h2
-        simp at hd
-        have hM : MF false (91 :: rest) = mapName 91 (MF true rest) :=
-          MF_cons 91 false true rest (by decide) (by decide) (by decide) (by intro l r _; rw [pibC]; simp)
-        have hS : SF false (91 :: rest) = mapName 91 (SF true rest) :=
-          SF_cons 91 false true rest (by simp [Spec.scanName]; try rfl)
-        have := ih true (by simpa using hd)
-        rw [hM, hS, this.1]
-        exact ⟨rfl, mapName_dom 91 _ this.2⟩
-      by_cases h3 : c = 125
-      · subst h3
-        simp at hd
-        simp [MF, SF, specC, pibC, finishC, splitBang, Spec.scanName, Spec.afterName, hd]
-      by_cases h4 : c = 58
-      · subst h4
-        simp at hd
-        have hA := spec_phase_A rest false 0 hd
-        have hS : SF false (58 :: rest) = accepted (Spec.afterName [] 58 rest) := by
-          simp [SF, Spec.scanName]
-        rw [hS]
-        simp only [MF, Spec.afterName]
-        rw [specC_plain false 58 _ (by decide) (by decide)]
-        cases hx : specC false rest with
-        | none =>
-          rw [hx] at hA
-          cases hy : Spec.scanSpec 0 rest with
-          | error e => simp [cons1]
-          | ok p => simp [hy] at hA
-        | some p =>
-          obtain ⟨s, r⟩ := p
-          rw [hx] at hA
-          have hB := spec_phase_B rest false 0 s r hd hx
-          cases hy : Spec.scanSpec 0 rest with
-          | error e => simp [hy] at hA
-          | ok q =>
-            simp [hy] at hA
-            subst hA
-            simp at hB
-            simp [cons1, pibC, hB.1, finishC, splitBang, hB.2]
-      by_cases h5 : c = 33
-      · subst h5
-        simp at hd
-        exact conv_phase rest hd
-      · simp [h1, h2, h3, h4, h5] at hd
-        have hM : MF false (c :: rest) = mapName c (MF false rest) :=
-          MF_cons c false false rest h1 h3 h5 (by intro l r _; rw [pibC]; simp [h2, h4])
-        have hS : SF false (c :: rest) = mapName c (SF false rest) :=
-          SF_cons c false false rest (by
-            have : (c == 91) = false := by simp [h2]
-            simp [Spec.scanName, h1, h3, h4, h5, this]; try rfl)
-        have := ih false (by simpa using hd)
-        rw [hM, hS, this.1]
-        exact ⟨rfl, mapName_dom c _ this.2⟩
-    · -- between `[` and `]`
-      simp only [↓reduceIte, domFrom] at hd
-      have hc : c ≠ 123 ∧ c ≠ 125 ∧ c ≠ 33 := by
-        by_cases h : c = 123 ∨ c = 125 ∨ c = 33
-        · simp [h] at hd
-        · omega
-      simp [hc] at hd
-      by_cases h2 : c = 93
-      · subst h2
-        simp at hd
-        have hM : MF true (93 :: rest) = mapName 93 (MF false rest) :=
-          MF_cons 93 true false rest (by decide) (by decide) (by decide) (by intro l r _; rw [pibC]; simp)
-        have hS : SF true (93 :: rest) = mapName 93 (SF false rest) :=
-          SF_cons 93 true false rest (by simp [Spec.scanName]; try rfl)
-        have := ih false (by simpa using hd)
-        rw [hM, hS, this.1]
-        exact ⟨rfl, mapName_dom 93 _ this.2⟩
-      · simp [h2] at hd
-        have hM : MF true (c :: rest) = mapName c (MF true rest) := by
-          apply MF_cons c true true rest hc.1 hc.2.1 hc.2.2
-          intro l r hs
-          have hne : l ≠ [] := by
-            intro h; subst h
-            obtain ⟨_, h2⟩ := specC_nil hs
-            subst h2
-            simp [domFrom] at hd
-          cases l with
-          | nil => exact absurd rfl hne
-          | cons x xs => rw [pibC]; simp [h2]
-        have hS : SF true (c :: rest) = mapName c (SF true rest) :=
-          SF_cons c true true rest (by
-            have : (c != 93) = true := by simp [h2]
-            simp [Spec.scanName, this]; try rfl)
-        have := ih true (by simpa using hd)
-        rw [hM, hS, this.1]
-        exact ⟨rfl, mapName_dom c _ this.2⟩
+      · simp [h1]
+      · by_cases h2 : c = 91
+        · subst h2
+          have := ih true
+          simp only [show ¬ (91 = 123) by decide, ↓reduceIte, show ¬ (91 = 125 ∨ 91 = 58 ∨ 91 = 33) by decide,
+            show (91 == 91) = true by decide]
+          generalize nameLoop true rest = x at this ⊢
+          generalize Spec.scanName true rest = y at this ⊢
+          cases x <;> cases y <;> simp_all
+        · by_cases h3 : c = 125 ∨ c = 58 ∨ c = 33
+          · simp [h1, h2, h3]
+          · have := ih false
+            have hb : (c == 91) = false := by simp [h2]
+            simp only [h1, h2, h3, hb, ↓reduceIte]
+            generalize nameLoop false rest = x at this ⊢
+            generalize Spec.scanName false rest = y at this ⊢
+            cases x <;> cases y <;> simp_all
+    · simp only [nameLoop, Spec.scanName]
+      have := ih (c != 93)
+      generalize nameLoop (c != 93) rest = x at this ⊢
+      generalize Spec.scanName (c != 93) rest = y at this ⊢
+      cases x <;> cases y <;> simp_all
 
-/-- the field lemma: on the text after an opening brace, inside the domain, the Rust field scanner
-    accepts exactly what CPython's `parse_field` accepts, with the same field and the same rest -/
-theorem field_eq (b : List Nat) (hd : domFrom .name b = true) :
-    accepted (parseSpec (123 :: b)) = accepted (Spec.parseField b) ∧
-    ∀ f r, accepted (Spec.parseField b) = some (f, r) → domFrom .lit r = true := by
-  rw [parseSpec_eq, parseField_eq]
-  exact name_phase b false (by simpa using hd)
+theorem specLoop_eq (t : List Nat) : ∀ d : Nat,
+    accepted (specLoop d t) = accepted (Spec.scanSpec d t) := by
+  induction t with
+  | nil => intro d; simp [specLoop, Spec.scanSpec]
+  | cons c rest ih =>
+    intro d
+    simp only [specLoop, Spec.scanSpec]
+    by_cases h1 : c = 123
+    · subst h1
+      have := ih (d + 1)
+      simp only [↓reduceIte, show ¬ (123 = 125) by decide, false_and]
+      generalize specLoop (d + 1) rest = x at this ⊢
+      generalize Spec.scanSpec (d + 1) rest = y at this ⊢
+      cases x <;> cases y <;> simp_all
+    · by_cases h2 : c = 125
+      · subst h2
+        by_cases h3 : d = 0
+        · simp [h3]
+        · have := ih (d - 1)
+          simp only [show ¬ (125 = 123) by decide, ↓reduceIte, h3, and_false]
+          generalize specLoop (d - 1) rest = x at this ⊢
+          generalize Spec.scanSpec (d - 1) rest = y at this ⊢
+          cases x <;> cases y <;> simp_all
+      · have := ih d
+        simp only [h1, h2, ↓reduceIte, false_and]
+        generalize specLoop d rest = x at this ⊢
+        generalize Spec.scanSpec d rest = y at this ⊢
+        cases x <;> cases y <;> simp_all
+
+theorem finishField_eq (name : List Nat) (conv : Option Nat) (t : Nat) (rest : List Nat) (_ht : t = 125 ∨ t = 58) :
+    accepted (finishField name conv t rest) =
+      accepted (if t = 125 then (.ok ({ name := name, conv := conv, spec := [] }, rest) : Except Spec.PyError _)
+        else match Spec.scanSpec 0 rest with
+          | .ok (s, r) => .ok ({ name := name, conv := conv, spec := s }, r)
+          | .error e => .error e) := by
+  unfold finishField
+  by_cases h : t = 125
+  · simp [h]
+  · have := specLoop_eq rest 0
+    simp only [h, ↓reduceIte]
+    generalize specLoop 0 rest = x at this ⊢
+    generalize Spec.scanSpec 0 rest = y at this ⊢
+    cases x <;> cases y <;> simp_all
+
+theorem scanName_term (t : List Nat) : ∀ (br : Bool) (n : List Nat) (term : Nat) (r : List Nat),
+    Spec.scanName br t = .ok (n, term, r) → term = 125 ∨ term = 58 ∨ term = 33 := by
+  induction t with
+  | nil => intro br n term r h; cases br <;> simp [Spec.scanName] at h
+  | cons c rest ih =>
+    intro br n term r h
+    cases br
+    · simp only [Spec.scanName] at h
+      split at h
+      · cases h
+      · split at h
+        · rename_i hc; simp at h; rw [← h.2.1]; exact hc
+        · cases hx : Spec.scanName (c == 91) rest with
+          | error e => simp [hx] at h
+          | ok p =>
+            obtain ⟨n', t', r'⟩ := p
+            simp [hx] at h
+            rw [← h.2.1]; exact ih _ n' t' r' hx
+    · simp only [Spec.scanName] at h
+      cases hx : Spec.scanName (c != 93) rest with
+      | error e => simp [hx] at h
+      | ok p =>
+        obtain ⟨n', t', r'⟩ := p
+        simp [hx] at h
+        rw [← h.2.1]; exact ih _ n' t' r' hx
+
+/-- **field lemma** (all inputs) -/
+theorem field_eq (b : List Nat) :
+    accepted (parseSpec (123 :: b)) = accepted (Spec.parseField b) := by
+  have hn := nameLoop_eq b false
+  simp only [parseSpec, Spec.parseField, ne_eq, not_true_eq_false, ↓reduceIte]
+  cases hx : nameLoop false b with
+  | error e =>
+    rw [hx] at hn
+    cases hy : Spec.scanName false b with
+    | error e2 => simp
+    | ok q => rw [hy] at hn; simp at hn
+  | ok p =>
+    rw [hx] at hn
+    cases hy : Spec.scanName false b with
+    | error e2 => rw [hy] at hn; simp at hn
+    | ok q =>
+      rw [hy] at hn
+      simp at hn
+      subst hn
+      obtain ⟨name, term, r⟩ := p
+      have hterm := scanName_term b false name term r hy
+      simp only [Spec.afterName]
+      by_cases h33 : term = 33
+      · subst h33
+        simp only [↓reduceIte, show ¬ (33 = 125) by decide, show ¬ (33 = 58) by decide]
+        match r with
+        | [] => simp
+        | [_] => simp
+        | conv :: t :: r' =>
+          simp only
+          by_cases ht : t = 125 ∨ t = 58
+          · rw [if_pos ht, finishField_eq name (some conv) t r' ht]
+            rcases ht with ht | ht <;> subst ht <;> simp <;> rfl
+          · have h1 : ¬ t = 125 := fun h => ht (Or.inl h)
+            have h2 : ¬ t = 58 := fun h => ht (Or.inr h)
+            simp [h1, h2]
+      · have ht : term = 125 ∨ term = 58 := by omega
+        rw [if_neg h33, finishField_eq name none term r ht]
+        rcases ht with ht | ht <;> subst ht <;> simp <;> rfl
+
+theorem parseSpec_length (t : List Nat) (f : Field) (r : List Nat) (h : accepted (parseSpec t) = some (f, r)) :
+    r.length < t.length := by
+  cases t with
+  | nil => simp [parseSpec] at h
+  | cons c b =>
+    by_cases hc : c = 123
+    · subst hc
+      rw [field_eq] at h
+      have := parseField_length b f r ((accepted_eq_some _ _).mp h)
+      simp; omega
+    · simp [parseSpec, hc] at h
 
 end PV.C20
